@@ -170,7 +170,15 @@ fn build(modes: &[ModeSpec]) -> Result<scnr::Scanner, String> {
             ScannerMode::new(&m.name, pats, m.trans.clone())
         })
         .collect();
-    ScannerBuilder::new().add_scanner_modes(&ms).build_uncached().map_err(|e| format!("{e}"))
+    // both ways of handing the modes to the builder are used (chosen by the shape of the configuration, so that a replay takes the same one)
+    let total: usize = modes.iter().map(|m| m.pats.len() + m.trans.len()).sum();
+    if total % 2 == 0 {
+        ScannerBuilder::new().add_scanner_modes(&ms).build_uncached().map_err(|e| format!("{e}"))
+    } else {
+        let mut b = ScannerBuilder::new();
+        for m in ms { b = b.add_scanner_mode(m); }
+        b.build_uncached().map_err(|e| format!("{e}"))
+    }
 }
 
 /// returns Err(description) when the real crate disagrees with the reference
